@@ -561,3 +561,73 @@ func ruleRegisterBeforeAck(c *Ctx) {
 		c.und("sites", 0, "no function registers subscriptions")
 	}
 }
+
+// R10.http-exchange-bounded
+func init() {
+	register(&Rule{ID: "R10.http-exchange-bounded", Props: []string{"C10"}, Floor: 1,
+		Text: "a webhook that fails is retried, and everything queued behind it is delivered in order, only if the send returns: every net/http Client the endpoint package builds bounds the whole exchange — its Timeout is set to a positive constant (the client-level timeout is the only one that covers reading the response body, which Send drains before it looks at the status) — a client with per-phase transport timeouts only waits for ever on an endpoint that sends its headers and then stalls, and the hook's one delivery goroutine with it",
+		Run:  ruleHTTPExchangeBounded})
+}
+
+func ruleHTTPExchangeBounded(c *Ctx) {
+	n := 0
+	for _, fn := range c.AllFuncs("internal/endpoint") {
+		if fn.Decl.Body == nil {
+			continue
+		}
+		info := fn.Info()
+		ast.Inspect(fn.Decl.Body, func(x ast.Node) bool {
+			cl, ok := x.(*ast.CompositeLit)
+			if !ok {
+				return true
+			}
+			tv, ok := info.Types[cl]
+			if !ok || !isNamedType(tv.Type, "net/http", "Client") {
+				return true
+			}
+			n++
+			key := fmt.Sprintf("%s→http.Client#%d", funcName(fn.Obj), n)
+			bounded := false
+			for _, el := range cl.Elts {
+				kv, ok := el.(*ast.KeyValueExpr)
+				if !ok {
+					continue
+				}
+				if id, ok := kv.Key.(*ast.Ident); ok && id.Name == "Timeout" {
+					if vt, ok := info.Types[kv.Value]; ok && vt.Value != nil {
+						if v, ok := constInt64(vt); ok && v > 0 {
+							bounded = true
+						}
+					}
+				}
+			}
+			c.check(bounded, key, cl.Pos(), "the client's Timeout is a positive constant", "this http.Client has no positive Timeout: nothing bounds the reading of the response body, so a webhook endpoint that answers with headers and then stalls blocks Send — and with it the hook's delivery goroutine, the retry of the message in flight and every message queued behind it — for ever")
+			return true
+		})
+	}
+	// a zero-value client used directly (http.DefaultClient, http.Post, …) is unbounded as well
+	for _, fn := range c.AllFuncs("internal/endpoint") {
+		if fn.Decl.Body == nil {
+			continue
+		}
+		info := fn.Info()
+		ast.Inspect(fn.Decl.Body, func(x ast.Node) bool {
+			call, ok := x.(*ast.CallExpr)
+			if !ok {
+				return true
+			}
+			f := callee(info, call)
+			if f == nil || f.Pkg() == nil || f.Pkg().Path() != "net/http" || f.Type().(*types.Signature).Recv() != nil {
+				return true
+			}
+			switch f.Name() {
+			case "Get", "Post", "PostForm", "Head":
+				c.bad(funcName(fn.Obj)+"→http."+f.Name(), call.Pos(), "http.%s uses the default client, which has no timeout: a stalling endpoint blocks the delivery goroutine for ever", f.Name())
+			}
+			return true
+		})
+	}
+	if n == 0 {
+		c.und("clients", 0, "no http.Client is built in internal/endpoint")
+	}
+}
